@@ -105,8 +105,8 @@ EthReasons(s) ==
        <<s.memo, "eth-memo">>,
        <<s.timeout, "eth-timeout">>,
        (* P: "its declared fee and gas limit equal those of the embedded Ethereum transaction" *)
-       <<~s.feeEq, "eth-fee-mismatch">>,
-       <<~s.gasEq, "eth-gas-mismatch">> >>
+       <<s.fee # "eq", "eth-fee-mismatch">>,
+       <<s.gas # "eq", "eth-gas-mismatch">> >>
 
 CosmosReasons(s) ==
   <<   <<Undecodable(s), "undecodable-ext">>,
@@ -130,7 +130,7 @@ CosmosReasons(s) ==
           a transaction without signer infos is refused with "no signatures supplied") *)
        <<~(s.sigs /\ s.sinfos), "cosmos-unsigned">>,
        (* outside the enumerated domain: Cosmos-lane fee payer / granter semantics are not C07's business *)
-       <<s.payer \/ s.granter \/ ~s.feeEq \/ ~s.gasEq, "outside-domain">> >>
+       <<s.payer \/ s.granter \/ s.fee # "eq" \/ s.gas # "eq" \/ s.ethType # "legacy", "outside-domain">> >>
 
 Reasons(s) == IF SoleEth(s) THEN EthReasons(s) ELSE CosmosReasons(s)
 
@@ -167,12 +167,19 @@ MustRunEvm(s) == EthLane(s) /\ Verdict(s) = "accept" /\ s.mode \in {"simulate", 
 (***************************************************************************)
 (* Well-formed shapes (domain of the model; used by the trace spec).       *)
 (***************************************************************************)
-ShapeFields == {"msgs", "ext", "sigs", "sinfos", "payer", "granter", "memo", "timeout", "feeEq", "gasEq", "mode"}
+(* fee / gas: the declared fee amount / gas limit relative to the embedded Ethereum transaction's: equal, one more,
+   one less, (fee only) the same amount of another denomination, no fee coin at all.  ethType: legacy, EIP-1559
+   dynamic-fee, EIP-2930 access-list transaction (its fee is gas x price, resp. gas x fee cap). *)
+AllFeeVars == {"eq", "more", "less", "denom", "none"}
+AllGasVars == {"eq", "more", "less"}
+EthTypes   == {"legacy", "dyn", "al"}
+ShapeFields == {"msgs", "ext", "sigs", "sinfos", "payer", "granter", "memo", "timeout", "fee", "gas", "ethType", "mode"}
 
 WellFormed(s) ==
   /\ DOMAIN s = ShapeFields
   /\ s.ext \in ExtKinds /\ s.mode \in Modes
-  /\ \A f \in {"sigs", "sinfos", "payer", "granter", "memo", "timeout", "feeEq", "gasEq"} : s[f] \in BOOLEAN
+  /\ \A f \in {"sigs", "sinfos", "payer", "granter", "memo", "timeout"} : s[f] \in BOOLEAN
+  /\ s.fee \in AllFeeVars /\ s.gas \in AllGasVars /\ s.ethType \in EthTypes
   /\ \A i \in 1..Len(s.msgs) :
        LET el == s.msgs[i] IN
        /\ DOMAIN el = {"d", "leaf"}
@@ -184,8 +191,10 @@ WellFormed(s) ==
 (***************************************************************************)
 (* The shape space enumerated by the design run and replayed, vector by    *)
 (* vector, against the real ante handler.  Factored (DESIGN.md C07):       *)
-(*  EthFull      sole Ethereum message x every ext kind x 2^8 envelope     *)
-(*               flags x 4 modes                                           *)
+(*  EthFull      sole Ethereum message x every ext kind x 2^6 envelope     *)
+(*               flags x fee variants x gas variants x 4 modes             *)
+(*  EthTyped     the same for EIP-1559 / EIP-2930 transactions (clean      *)
+(*               envelope, every fee / gas variant)                        *)
 (*  Singles      every other single element (every leaf kind at every      *)
 (*               exec depth 0..MaxD, sibling pairs inside exec) x ext kind *)
 (*               x signed/unsigned x modes; plus memo/timeout variants     *)
@@ -197,13 +206,15 @@ WellFormed(s) ==
 (*               "two eth messages in an Ethereum envelope" case)          *)
 (*  Triples      three elements over TripleElems                           *)
 (***************************************************************************)
-CONSTANTS MaxD, PairD, PairLeaves, TripleElemSet
+CONSTANTS MaxD, PairD, PairLeaves, TripleElemSet, FeeVars, GasVars
 
-S(msgs, ext, sigs, sinfos, payer, granter, memo, timeout, feeEq, gasEq, mode) ==
+ST(msgs, ext, sigs, sinfos, payer, granter, memo, timeout, fee, gas, typ, mode) ==
   [msgs |-> msgs, ext |-> ext, sigs |-> sigs, sinfos |-> sinfos, payer |-> payer, granter |-> granter,
-   memo |-> memo, timeout |-> timeout, feeEq |-> feeEq, gasEq |-> gasEq, mode |-> mode]
+   memo |-> memo, timeout |-> timeout, fee |-> fee, gas |-> gas, ethType |-> typ, mode |-> mode]
+S(msgs, ext, sigs, sinfos, payer, granter, memo, timeout, fee, gas, mode) ==
+  ST(msgs, ext, sigs, sinfos, payer, granter, memo, timeout, fee, gas, "legacy", mode)
 
-Cos(msgs, ext, sg, memo, timeout, mode) == S(msgs, ext, sg, sg, FALSE, FALSE, memo, timeout, TRUE, TRUE, mode)
+Cos(msgs, ext, sg, memo, timeout, mode) == S(msgs, ext, sg, sg, FALSE, FALSE, memo, timeout, "eq", "eq", mode)
 
 BadSiblings == {"eth", "vest1", "vest2", "vest3", "vest1p", "g_eth", "g_vest1"}
 SiblingPairs == {<<"send", "send">>} \cup {<<"send", b>> : b \in BadSiblings} \cup {<<b, "send">> : b \in BadSiblings}
@@ -214,7 +225,10 @@ PairElems == TopElems \cup {E(d, <<k>>) : d \in 1..PairD, k \in PairLeaves}
 
 EthFull == {S(<<EthElem>>, x, a, b, c, d, e, f, g, h, m) :
               x \in ExtKinds, a \in BOOLEAN, b \in BOOLEAN, c \in BOOLEAN, d \in BOOLEAN,
-              e \in BOOLEAN, f \in BOOLEAN, g \in BOOLEAN, h \in BOOLEAN, m \in Modes}
+              e \in BOOLEAN, f \in BOOLEAN, g \in FeeVars, h \in GasVars, m \in Modes}
+(* the other Ethereum transaction types: clean envelope, every fee / gas variant *)
+EthTyped == {ST(<<EthElem>>, x, FALSE, FALSE, FALSE, FALSE, FALSE, FALSE, g, h, t, m) :
+              x \in {"none", "eth"}, g \in AllFeeVars, h \in AllGasVars, t \in EthTypes \ {"legacy"}, m \in Modes}
 
 Singles == {Cos(<<el>>, x, sg, FALSE, FALSE, m) : el \in AllElems \ {EthElem}, x \in ExtKinds, sg \in BOOLEAN, m \in Modes}
 SinglesFlags == {Cos(<<el>>, "none", TRUE, mt[1], mt[2], m) :
@@ -228,7 +242,7 @@ Triples == {Cos(<<e1, e2, e3>>, "none", TRUE, FALSE, FALSE, m) :
               e1 \in TripleElemSet, e2 \in TripleElemSet, e3 \in TripleElemSet, m \in Modes}
 
 (* the factors are pairwise disjoint by construction *)
-ShapeSpace == EthFull \cup Singles \cup SinglesFlags \cup Empty \cup Pairs \cup PairsEth \cup Triples
+ShapeSpace == EthFull \cup EthTyped \cup Singles \cup SinglesFlags \cup Empty \cup Pairs \cup PairsEth \cup Triples
 
 
 (***************************************************************************)
@@ -236,7 +250,7 @@ ShapeSpace == EthFull \cup Singles \cup SinglesFlags \cup Empty \cup Pairs \cup 
 (***************************************************************************)
 (* the factors of the space are pairwise disjoint: normalise each on its own (the union of un-normalised set
    comprehensions is very slow in TLC) and concatenate; DisjointFactors re-checks the disjointness by counting *)
-ShapeSeq == SetToSeq(EthFull) \o SetToSeq(Singles) \o SetToSeq(SinglesFlags) \o SetToSeq(Empty)
+ShapeSeq == SetToSeq(EthFull) \o SetToSeq(EthTyped) \o SetToSeq(Singles) \o SetToSeq(SinglesFlags) \o SetToSeq(Empty)
               \o SetToSeq(Pairs) \o SetToSeq(PairsEth) \o SetToSeq(Triples)
 DisjointFactors == Cardinality(Range(ShapeSeq)) = Len(ShapeSeq)
 
@@ -246,7 +260,8 @@ QuickPairLeaves   == {"send", "eth", "vest1", "g_eth"}
 QuickTripleElems  == {E(0, <<"eth">>), E(0, <<"send">>), E(0, <<"vest1">>), E(0, <<"vest1p">>), E(0, <<"g_eth">>),
                       E(1, <<"eth">>), E(1, <<"send">>), E(3, <<"send">>)}
 ThoroughPairLeaves  == LeafKinds
-ThoroughTripleElems == TopElems \cup {E(1, <<"eth">>), E(1, <<"send">>), E(2, <<"vest2">>), E(2, <<"send">>), E(3, <<"send">>)}
+ThoroughTripleElems == TopElems \cup {E(1, <<"eth">>), E(1, <<"send">>), E(2, <<"vest2">>), E(2, <<"send">>), E(3, <<"send">>),
+                                     E(1, <<"g_eth">>), E(2, <<"g_send">>), E(1, <<"vest1p">>), E(2, <<"other">>), E(1, <<"send", "eth">>)}
 
 
 Expect(s) == [verdict |-> Verdict(s), lane |-> Lane(s), reason |-> Reason(s)]
@@ -268,7 +283,7 @@ EthAcceptedOnlyIfClean(s) ==
      /\ Len(s.msgs) = 1
      /\ ~s.sigs /\ ~s.sinfos /\ ~s.payer /\ ~s.granter /\ ~s.memo /\ ~s.timeout
      /\ Range(CritOpts(s.ext)) \cup Range(NonCritOpts(s.ext)) \subseteq {"eth"}
-     /\ s.feeEq /\ s.gasEq
+     /\ s.fee = "eq" /\ s.gas = "eq"
 
 (* "Ethereum messages (and the configured vesting-creation messages) can never be executed through the Cosmos lane -
    neither listed beside other messages nor nested at any depth inside authorisation-exec messages - and grants for
